@@ -422,6 +422,64 @@ theorem gpx_file_roundtrip (rf : List Tok) (hrf : ReadsIso rf) (geo : Bool) (nam
   rw [hp]
   simp only [e3, e4, e5]
 
+/-! ### a collection in one file -/
+
+theorem gpxLines_eq (name : Str) (rows : List GRow) : gpxLines name rows = trkLines name rows ++ [lEndGpx] := by
+  simp [gpxLines, trkLines]
+
+/-- one `<trk>` element met outside a track: a new track with its points is appended -/
+theorem fold_trk (rf : List Tok) (hrf : ReadsIso rf) (geo : Bool) (name : Str) (hname : '<' ∉ name) (rows : List GRow)
+    (hrows : ∀ r ∈ rows, Fits r.t) (pos : Option (Dec × Dec × Dec)) (tps : Option Stamp) (ts : List (List RRow)) :
+    ∃ pos' tps', (trkLines name rows).foldlM (gpxLine rf geo) ⟨false, false, pos, tps, ts, false⟩
+      = .ok ⟨false, false, pos', tps', ts ++ [rows.map (expG rf geo)], false⟩ := by
+  obtain ⟨p, t, hp⟩ := fold_pts rf hrf geo rows hrows pos tps ts []
+  simp only [List.nil_append] at hp
+  refine ⟨p, t, ?_⟩
+  unfold trkLines
+  have e0 : gpxLine rf geo ⟨false, false, pos, tps, ts, false⟩ lTrk = .ok ⟨true, false, pos, tps, ts ++ [[]], false⟩ :=
+    gpxLine_trk rf geo _ rfl
+  have e1 := gpxLine_notags rf geo ⟨true, false, pos, tps, ts ++ [[]], false⟩ _ (tags_lName name hname) (noext_lName name hname) rfl
+  have e2 := gpxLine_notags rf geo ⟨true, false, pos, tps, ts ++ [[]], false⟩ _ tags_lSeg noext_lSeg rfl
+  have e3 := gpxLine_notags rf geo ⟨true, false, p, t, ts ++ [rows.map (expG rf geo)], false⟩ _ tags_lEndSeg noext_lEndSeg rfl
+  have e4 := gpxLine_endTrk rf geo ⟨true, false, p, t, ts ++ [rows.map (expG rf geo)], false⟩ rfl
+  simp only [List.foldlM_append, List.foldlM_cons, List.foldlM_nil, e0, e1, e2, bind, Except.bind, pure, Except.pure]
+  rw [hp]
+  simp only [e3, e4]
+
+theorem fold_trks (rf : List Tok) (hrf : ReadsIso rf) (geo : Bool) (tracks : List (Str × List GRow))
+    (hok : ∀ t ∈ tracks, '<' ∉ t.1 ∧ ∀ r ∈ t.2, Fits r.t) (pos : Option (Dec × Dec × Dec)) (tps : Option Stamp)
+    (ts : List (List RRow)) :
+    ∃ pos' tps', ((tracks.map (fun t => trkLines t.1 t.2)).flatten).foldlM (gpxLine rf geo) ⟨false, false, pos, tps, ts, false⟩
+      = .ok ⟨false, false, pos', tps', ts ++ tracks.map (fun t => t.2.map (expG rf geo)), false⟩ := by
+  induction tracks generalizing pos tps ts with
+  | nil => exact ⟨pos, tps, by simp [pure, Except.pure]⟩
+  | cons t rest ih =>
+    obtain ⟨p1, t1, h1⟩ := fold_trk rf hrf geo t.1 (hok t (by simp)).1 t.2 (hok t (by simp)).2 pos tps ts
+    obtain ⟨p2, t2, h2⟩ := ih (fun x hx => hok x (by simp [hx])) p1 t1 (ts ++ [t.2.map (expG rf geo)])
+    refine ⟨p2, t2, ?_⟩
+    simp only [List.map_cons, List.flatten_cons, List.foldlM_append, h1, bind, Except.bind]
+    rw [h2]
+    simp
+
+/-- **GPX collection**: the body `writeToGpx` writes for a collection in one file is read as the tracks, in order -/
+theorem gpx_collection_roundtrip (rf : List Tok) (hrf : ReadsIso rf) (geo : Bool) (tracks : List (Str × List GRow))
+    (hok : ∀ t ∈ tracks, ('<' ∉ t.1 ∧ '\n' ∉ t.1) ∧ ∀ r ∈ t.2, Fits r.t) :
+    readGpx rf geo (gpxBodyColl tracks) = .ok (tracks.map (fun t => t.2.map (expG rf geo))) := by
+  unfold readGpx gpxBodyColl
+  have hnl : ∀ l ∈ (tracks.map (fun t => trkLines t.1 t.2)).flatten ++ [lEndGpx], '\n' ∉ l := by
+    intro l hl
+    rcases List.mem_append.1 hl with hl | hl
+    · obtain ⟨ls, hls, hl⟩ := List.mem_flatten.1 hl
+      obtain ⟨t, ht, rfl⟩ := List.mem_map.1 hls
+      exact gpxLines_nl t.1 (hok t ht).1.2 t.2 l (by rw [gpxLines_eq]; exact List.mem_append_left _ hl)
+    · simp only [List.mem_singleton] at hl; subst hl; decide
+  rw [fileLines_flatten _ hnl]
+  obtain ⟨p, t, hp⟩ := fold_trks rf hrf geo tracks (fun x hx => ⟨(hok x hx).1.1, (hok x hx).2⟩) none none []
+  have e5 := gpxLine_notags rf geo ⟨false, false, p, t, tracks.map (fun t => t.2.map (expG rf geo)), false⟩ _ tags_lEndGpx noext_lEndGpx rfl
+  simp only [List.nil_append] at hp
+  have h0 : ({} : GState) = ⟨false, false, none, none, [], false⟩ := rfl
+  simp only [List.foldlM_append, List.foldlM_cons, List.foldlM_nil, h0, hp, e5, bind, Except.bind, pure, Except.pure]
+
 theorem readsIso_iso : ReadsIso isoFmt := ⟨by decide, fun _ => ⟨['Z'], rfl⟩⟩
 
 theorem readsIso_isoZ : ReadsIso (tokenize "4Y-2M-2DT2h:2m:2sZ".toList) := by
